@@ -363,6 +363,26 @@ fn battery() -> Vec<Case> {
     ] {
         v.push(Case::TruncText { text: t.to_string(), q: d });
     }
+    // every character name of R6RS, R7RS and the usual dialect extensions, bare
+    // and inside a list and a vector: the ones the reader accepts are
+    // truncated at every byte
+    for n in [
+        "nul", "null", "alarm", "backspace", "tab", "linefeed", "newline", "vtab", "page", "return", "esc", "escape", "space", "delete", "rubout", "altmode", "bell", "formfeed", "nl",
+        "lf", "cr", "ht", "bs", "del", "backslash", "x", "xx", "x0", "x10FFFF", "U+41", "u0041", "NUL", "Space", "SPACE", "newLine", "return;", "tab\\",
+    ] {
+        for tpl in ["#\\{}", "(#\\{})", "#(a #\\{} b)", "(a . #\\{})", "'#\\{}"] {
+            v.push(Case::TruncText { text: tpl.replace("{}", n), q: d });
+            v.push(Case::TruncText { text: tpl.replace("{}", n), q: e });
+        }
+    }
+    // the other fixed vocabularies of the grammar
+    for t in ["#true", "#false", "#t", "#f", "#nil", "#!eof", "#!default", "#!optional", "#!r6rs", "#;a b", "#|c|# a", "#vu8()", "#u8()", "#s8()", "#0=(a)", "#&a", "#'a", "#`a", "#,a", "#,@a", "#%app", "#:a", "nil", "t", "'nil", "#d1.5", "#e1.5", "#i1", "#x1/2", "1/2", "+inf.0", "-inf.0", "+nan.0", "+i", "1+2i"] {
+        v.push(Case::TruncText { text: t.to_string(), q: d });
+        v.push(Case::TruncText { text: format!("({} x)", t), q: d });
+        v.push(Case::TruncText { text: t.to_string(), q: e });
+        let all_on = QOpt { racket: true, ..QOpt::default_set() };
+        v.push(Case::TruncText { text: t.to_string(), q: all_on.index() });
+    }
     for t in ["?a", "?\\(", "?\\x41", "?\\101", "?\\u00e9", "?\\U000000e9", "?\\N{U+41}", "?\\^a", "\"\\101\\102\"", "\"a\\u00e9b\"", "\"\\N{U+3bb}\"", "[a :k nil t]", "\"\\x41\\ b\"", "?λ"] {
         v.push(Case::TruncText { text: t.to_string(), q: e });
     }
@@ -383,6 +403,11 @@ fn run(ctx: &mut Ctx) {
             let mut c = parent.fork();
             c.run_prop(&format!("trunc/{}", w), tier.pick(250, 8_000), g_trunc(), check_case);
             c.run_prop(&format!("loc/{}", w), tier.pick(4_000, 100_000), g_loc(max_len), check_case);
+            // any generated text the reader accepts as one datum (whatever the reader's vocabulary is), truncated at every byte
+            c.run_prop(&format!("trunc-accepted/{}", w), tier.pick(2_000, 50_000), (prop_oneof![g_char_literal(), g_input(40).prop_map(|(b, _)| b)], g_qopt_index()), |(b, q)| match std::str::from_utf8(b) {
+                Ok(t) => check_case(&Case::TruncText { text: t.to_string(), q: *q }),
+                Err(_) => Ok(Eval::new(false, 0).class("trunc:not-text")),
+            });
             c
         })
         .collect();
